@@ -311,7 +311,9 @@ fn bad_operands() -> Vec<(Vec<String>, &'static str)> {
     add("-perm", &["8", "77777", "u=z", "rwx", "", "-", "/", "u=r,", ",u=r", "a+r,,g=w", "u=r g=w", "789"], "-perm");
     add("-regextype", &["foo", "", "POSIX-BASIC", "emacs "], "-regextype");
     add("-regex", &["\\(", "[a", "\\)"], "-regex");
-    add("-iregex", &["\\(", "[[:alpha:]"], "-regex");
+    // (second entry: formerly "[[:alpha:]", which is a well-formed bracket expression in the emacs
+    // syntax - it has no character classes - and was wrongly listed; see DESIGN 6.4)
+    add("-iregex", &["\\(", "[a"], "-regex");
     add("-printf", &["%", "abc%", "%-5", "%A", "abc\\", "%5", "%-", "\\", "%T", "%C"], "-printf");
     add("-maxdepth", &["-1", "x", "", "1.5"], "-maxdepth");
     add("-mindepth", &["-1", "x", "", "2x"], "-mindepth");
@@ -368,6 +370,12 @@ fn bad_operands() -> Vec<(Vec<String>, &'static str)> {
     }
     for o in [" 644", "644 ", "/ 1", "- 644", "-6 44"] {
         v.push((vec![s("-perm"), s(o)], "-perm"));
+    }
+    // an unterminated bracket expression in the syntaxes that have character classes
+    for t in ["posix-basic", "posix-extended", "grep", "sed"] {
+        for pat in ["[[:alpha:]", "x[a[:digit:]"] {
+            v.push((vec![s("-regextype"), s(t), s("-regex"), s(pat)], "-regex"));
+        }
     }
     v
 }
